@@ -187,4 +187,34 @@ LumaFromXyzBits(xyz, luma) == AgreeBits(luma[1], xyz[2], AtLeast(FxAbs(xyz[2]), 
 XyzFromLumaBits(luma, xyz) ==
   LET sc == AtLeast(FxAbs(luma[1]), 30)
   IN Min3i(AgreeBits(xyz[1], FxMul(luma[1], WhiteD65[1]), sc), AgreeBits(xyz[2], luma[1], sc), AgreeBits(xyz[3], FxMul(luma[1], WhiteD65[3]), sc))
+
+-----------------------------------------------------------------------------
+(* Okhsl (B. Ottosson, "Okhsv and Okhsl", 2021): the saturation -> chroma interpolation.  With
+   mid = 0.8 and the three chroma anchors C_0, C_mid, C_max of the hue and lightness,
+     s < mid :  t = s / mid,                 k1 = mid C_0,                       k2 = 1 - k1 / C_mid,
+                C = t k1 / (1 - k2 t)
+     s >= mid:  t = (s - mid) / (1 - mid),   k1 = (1 - mid) C_mid^2 / (mid^2 C_0), k2 = 1 - k1 / (C_max - C_mid),
+                C = C_mid + t k1 / (1 - k2 t)
+   The anchors themselves come from Ottosson's numerical gamut procedure, which this specification does not
+   transcribe (section 5); they are taken from the code's own results on the SAME hue and lightness:
+   C_mid = C(0.8), C_max = C(1), and C_0 solved from C(eps) with the first formula.  The relation then
+   decides the interpolation at every other saturation, in both segments. *)
+OkMid == FxRat(4, 5)
+OkhslC0(ceps, eps, cmid) ==          \* C_0 = c (1 - t) / (mid t (1 - c / C_mid)),  t = eps / mid
+  LET t == FxDiv(eps, OkMid)
+  IN FxDiv(FxMul(ceps, FxSub(FxOne, t)), FxMul(FxMul(OkMid, t), FxSub(FxOne, FxDiv(ceps, cmid))))
+OkhslChroma(s, c0, cmid, cmax) ==
+  IF FxLt(s, OkMid)
+  THEN LET t == FxDiv(s, OkMid)  k1 == FxMul(OkMid, c0)  k2 == FxSub(FxOne, FxDiv(k1, cmid))
+       IN FxDiv(FxMul(t, k1), FxSub(FxOne, FxMul(k2, t)))
+  ELSE LET t == FxDiv(FxSub(s, OkMid), FxSub(FxOne, OkMid))
+           k1 == FxDiv(FxMul(FxSub(FxOne, OkMid), FxSqr(cmid)), FxMul(FxSqr(OkMid), c0))
+           k2 == FxSub(FxOne, FxDiv(k1, FxSub(cmax, cmid)))
+       IN FxAdd(cmid, FxDiv(FxMul(t, k1), FxSub(FxOne, FxMul(k2, t))))
+(* ss: the swept saturations, the first three being eps, 0.8 and 1; cs: the chroma the code returned for each *)
+OkhslInterpBits(ss, cs) ==
+  LET c0 == OkhslC0(cs[1], ss[1], cs[2])
+      bits(i) == AgreeBits(cs[i], OkhslChroma(ss[i], c0, cs[2], cs[3]), AtLeast(cs[3], 30))
+      rest == {bits(i) : i \in 4..Len(ss)}
+  IN CHOOSE b \in rest : \A x \in rest : b <= x
 =============================================================================
